@@ -882,6 +882,11 @@ impl Deref for OsIpcSharedMemory {
 
     #[inline]
     fn deref(&self) -> &[u8] {
+        if self.ptr.is_null() {
+            // Zero-length region: nothing is mapped (see `map_file`),
+            // and a slice must not be built from a null pointer.
+            return &[];
+        }
         unsafe { slice::from_raw_parts(self.ptr, self.length) }
     }
 }
@@ -905,8 +910,10 @@ impl OsIpcSharedMemory {
         unsafe {
             let store = BackingStore::new(length);
             let (address, _) = store.map_file(Some(length));
-            for element in slice::from_raw_parts_mut(address, length) {
-                *element = byte;
+            if !address.is_null() {
+                for element in slice::from_raw_parts_mut(address, length) {
+                    *element = byte;
+                }
             }
             OsIpcSharedMemory::from_raw_parts(address, length, store)
         }
